@@ -135,6 +135,11 @@ T_CLONE_SPAN = ("let new = self.inner.clone_span(old); if &new != old { self.sub
 T_TRY_CLOSE = ("let subscriber = &self.inner as &dyn Collect; let mut guard = subscriber.downcast_ref::<Registry>()"
                ".map(|registry| registry.start_close(id.clone())); if self.inner.try_close(id.clone()) { "
                "{ if let Some(g) = guard.as_mut() { g.set_closing() }; } self.subscriber.on_close(id, self.ctx()); true } else { false }")
+T_TRY_CLOSE_CFG = ('#[cfg(all(feature = "registry", feature = "std"))] let subscriber = &self.inner as &dyn Collect; '
+                   '#[cfg(all(feature = "registry", feature = "std"))] let mut guard = subscriber.downcast_ref::<Registry>()'
+                   '.map(|registry| registry.start_close(id.clone())); if self.inner.try_close(id.clone()) { '
+                   '#[cfg(all(feature = "registry", feature = "std"))] { if let Some(g) = guard.as_mut() { g.set_closing() }; } '
+                   'self.subscriber.on_close(id, self.ctx()); true } else { false }')
 T_EVENT_GATE = "let collector = self.collector(); if collector.event_enabled(event) { collector.event(event); }"
 
 T_PICK_INTEREST = ("if self.has_subscriber_filter { return inner(); } if outer.is_never() { filter::FilterState::take_interest(); "
@@ -311,6 +316,30 @@ def classify_default(name, sig, body):
 
 # ------------------------------------------------------------------------------------------------
 
+def register_counts(core_dispatch, core_callsite):
+    """{constructor: number of on_register_dispatch notifications it issues} for Dispatch::new and Dispatch::from_static (None = not found)."""
+    # callsite::register_dispatch, std variant: the fn whose body locks REGISTRY.dispatchers
+    per_call = None
+    for m in re.finditer(r"pub\(crate\) fn register_dispatch\((\w+): &Dispatch\)", core_callsite):
+        ob = core_callsite.find("{", m.end())
+        body = clean(core_callsite[ob + 1:match_brace(core_callsite, ob)])
+        if "REGISTRY.dispatchers.write()" in body:
+            per_call = len(re.findall(r"\b%s\.collector\(\)\.on_register_dispatch\(%s\);" % (m.group(1), m.group(1)), body))
+    out = {}
+    for name, sig in (("new", r"pub fn new<C>\(collector: C\) -> Self"), ("from_static", r"pub fn from_static\(collector: &'static \(dyn Collect \+ Send \+ Sync\)\) -> Self")):
+        m = re.search(sig, core_dispatch)
+        if not m:
+            out[name] = None
+            continue
+        ob = core_dispatch.find("{", m.end())
+        body = clean(core_dispatch[ob + 1:match_brace(core_dispatch, ob)])
+        direct = len(re.findall(r"\bme\.collector\(\)\.on_register_dispatch\(&me\);", body))
+        via = len(re.findall(r"crate::callsite::register_dispatch\(&me\);", body))
+        other = len(re.findall(r"on_register_dispatch", body)) - direct
+        out[name] = None if (per_call is None or other) else direct + via * per_call
+    return out
+
+
 def read(repo, rel):
     with open(os.path.join(repo, rel), encoding="utf-8") as f:
         return strip_comments(f.read())
@@ -433,20 +462,18 @@ def main(repo, out):
     impl_rows("Not", "Filter", comb, r"impl\s*<A, S>\s*Filter<S> for Not<A, S>[^{;]*\{")
 
     # Dispatch: its public methods of the same names as Collect's, plus where on_register_dispatch is issued
+    install_counts = {}
     dfns = {}
     for _, body, _, _ in find_blocks(core_dispatch, r"impl Dispatch\s*\{"):
         for k, v in fns_in(body).items():
             dfns.setdefault(k, v)
     for mname in trait_methods["Collect"]:
         if mname == "on_register_dispatch":
-            n = len(re.findall(r"dispatch\.collector\(\)\.on_register_dispatch\(dispatch\);", core_callsite))
-            m = re.search(r"pub fn new<C>\(collector: C\) -> Self", core_dispatch)
-            newb = None
-            if m:
-                ob = core_dispatch.find("{", m.end())
-                newb = clean(core_dispatch[ob + 1:match_brace(core_dispatch, ob)])
-            c = "Fwd" if n >= 1 and newb and "crate::callsite::register_dispatch(&me);" in newb else \
-                "(Custom %s)" % coq_str("Dispatch::new / callsite::register_dispatch do not issue on_register_dispatch")
+            # every constructor of a Dispatch must tell the collector about it exactly once: count the notifications each one
+            # issues, directly or through callsite::register_dispatch (the std variant, the one that keeps the dispatcher list)
+            install_counts.update(register_counts(core_dispatch, core_callsite))
+            c = "Fwd" if install_counts.get("new") == 1 else \
+                "(Custom %s)" % coq_str("Dispatch::new issues on_register_dispatch %s times" % install_counts.get("new"))
         elif mname in dfns and dfns[mname][1] is not None:
             recv, _ = params_of(dfns[mname][0])
             c = classify(mname, dfns[mname][0], dfns[mname][1]) if recv == "&self" else "Missing"
@@ -466,6 +493,15 @@ def main(repo, out):
         helpers.append(("Layered::" + hname, ok))
         if not ok:
             unrec.append("Layered::%s body differs from the template the model mirrors" % hname)
+    # Layered::try_close with its attributes kept: the `if self.inner.try_close(..) { .. } else { false }` decision must be outside any
+    # cfg'd block (only the Registry close-guard statements are conditional), or a build without the `registry` feature behaves differently
+    lc = {}
+    for _, body, _, _ in find_blocks(layered, r"impl\s*<S, C>\s*Collect for Layered<S, C>[^{;]*\{"):
+        lc.update(fns_in(body))
+    ok = "try_close" in lc and lc["try_close"][1] is not None and re.sub(r"\s+\.", ".", norm(lc["try_close"][1])) == T_TRY_CLOSE_CFG
+    helpers.append(("Layered::try_close cfg structure", ok))
+    if not ok:
+        unrec.append("Layered::try_close: the cfg(feature = \"registry\") structure differs from the template (the closed / not-closed decision must not sit inside a cfg block)")
     tl = {}
     for k, v in fns_in(sub_mod).items():
         tl[k] = v
@@ -517,6 +553,11 @@ def main(repo, out):
         "(%s, %s, %s, %s)" % (coq_str(w), TRAITS[t], coq_str(m), c) for w, t, m, c in rows) + " ].\n")
     G.append("Definition gen_helpers : list (string * bool) :=\n  [ " + "; ".join(
         "(%s, %s)" % (coq_str(h), "true" if ok else "false") for h, ok in helpers) + " ].\n")
+    G.append("Definition gen_install_counts : list (string * N) :=\n  [%s].\n" % "; ".join(
+        "(%s, %s%%N)" % (coq_str(k), install_counts.get(k, 99) if install_counts.get(k) is not None else 99) for k in ("new", "from_static")))
+    for k in ("new", "from_static"):
+        if install_counts.get(k) != 1:
+            unrec.append("Dispatch::%s issues on_register_dispatch %s times (expected once)" % (k, install_counts.get(k)))
     G.append("Definition gen_try_lock_order : string := %s.\n" % coq_str(tl_order))
     G.append("Definition gen_unrecognised : list string :=\n  [" + "; ".join(coq_str(u[:200]) for u in unrec) + "].")
     text = "\n".join(G) + "\n"
